@@ -66,3 +66,8 @@ def extend(claim, NA):
           'Bounded solver-based check: adapter constructors with symbolic integers (accepted sets), progress of next_cut for every accepted (min,max) as a z3 query on the LLVM IR, the Python adapter lossless over any contract-obeying cutter; settings dictionaries (hashing x chunking x cipher x kdf x mode pools incl. out-of-range, mistyped, wrong-kind, unknown entries) and add-key chains exhausted by the solver over the real init/add_key/unlock with a fresh-process round trip.',
           'finite pools of settings values; scrypt n <= 8; as C10 for the IR part.',
           'symbolic execution of constructors (CrossHair+z3) + LLVM IR -> SMT progress query + solver-exhausted settings vectors', '3/C17')
+    claim('C19',
+          'Bounded solver-based check of the real code: the typed-value and precedence logic of the configuration classes traced by CrossHair+z3 with symbolic TOML integers / booleans / floats (unbounded), symbolic presence flags and symbolic text values; and a symbolic choice vector (option x presence mask over command line / environment / selected profile / default section x value variant x profile mode) realize()d by z3 and executed on the real replicat.__main__.main() with the real argparse, tomllib and os.environ against a reference precedence rule; mutually exclusive pairs rejected together and accepted alone.',
+          '15 options (6 of a recording custom backend registered as replicat.backends.vtpc) x 16 masks x 3 value variants x 3 profile modes; each vector re-executes replicat.utils.cli (main() runs once per process); alternatives of one setting at different file levels outside; text coercion of arbitrary strings is a pool (CrossHair realises at ast.literal_eval / int(str)).',
+          'symbolic execution of config classes (CrossHair+z3) + solver-exhausted choice vectors on the real main()', '3/C19')
+    NA.pop('C19', None)
